@@ -722,6 +722,33 @@ def _pure_with(n, pure_calls):
     return True
 
 
+def _stable_scalar_reads(fn):
+    """(base variable id, field) pairs safe to read at any point of fn although the base pointer is not const: the field is
+    a scalar that fn never stores to or takes the address of, and the base pointer is never handed to a callee that could
+    write through it."""
+    from . import modref
+    unsafe_base = set()
+    written = set()
+    for n in cir.walk(fn):
+        k = n.get("k")
+        if cir.is_call(n):
+            ce = cir.callee_expr(n)
+            ptypes = modref._param_types((ce.get("ref") or {}).get("t") if ce is not None and ce.get("k") == "DeclRefExpr" else None)
+            for i, a in enumerate(cir.args(n)):
+                x = cir.strip(a)
+                if x is not None and x.get("k") == "DeclRefExpr" and "*" in (x.get("t") or ""):
+                    pt = ptypes[i] if i < len(ptypes) else None
+                    if not (pt and modref._const_pointee(pt)):
+                        unsafe_base.add((x.get("ref") or {}).get("id"))
+        tgt = None
+        if (k == "BinaryOperator" and n.get("op") == "=") or k == "CompoundAssignOperator" or \
+                (k == "UnaryOperator" and n.get("op") in ("++", "--", "&")):
+            tgt = cir.strip(cir.kids(n)[0])
+        if tgt is not None and tgt.get("k") == "MemberExpr":
+            written.add(tgt.get("n"))
+    return unsafe_base, written
+
+
 def propagate_locals(fn, allow=None, pure_calls=()):
     """Substitute locals that are initialised once with a pure expression and never modified, when every variable the
     initialiser reads is unmodified between the declaration and the local's last use and every memory read goes through a
@@ -746,6 +773,7 @@ def propagate_locals(fn, allow=None, pure_calls=()):
         if x.get("k") == "DeclRefExpr":
             uses.setdefault((x.get("ref") or {}).get("id"), []).append(order[id(x)])
     mapping = {}
+    stable = None
     for x in nodes:
         if x.get("k") != "VarDecl" or not x.get("init") or x.get("id") in mod:
             continue
@@ -755,8 +783,25 @@ def propagate_locals(fn, allow=None, pure_calls=()):
         if not init:
             continue
         e = init[-1]
-        if not _pure_with(e, pure_calls) or not _const_rooted(e) or contains(e, ("InitListExpr", "StringLiteral", "CompoundLiteralExpr")):
+        if not _pure_with(e, pure_calls) or contains(e, ("InitListExpr", "StringLiteral", "CompoundLiteralExpr")):
             continue
+        if not _const_rooted(e):
+            if stable is None:
+                stable = _stable_scalar_reads(fn)
+            okr = True
+            for y in cir.walk(e):
+                if y.get("k") == "ArraySubscriptExpr" or (y.get("k") == "UnaryOperator" and y.get("op") == "*"):
+                    b_ = cir.strip(cir.kids(y)[0])
+                    if "const " not in ((b_ or {}).get("t") or ""):
+                        okr = False
+                elif y.get("k") == "MemberExpr" and y.get("arrow"):
+                    b_ = cir.strip(cir.kids(y)[0])
+                    if not ((b_ or {}).get("t") or "").startswith("const "):
+                        if b_ is None or b_.get("k") != "DeclRefExpr" or (b_.get("ref") or {}).get("id") in stable[0] or \
+                                y.get("n") in stable[1] or "*" in (y.get("t") or "") or "[" in (y.get("t") or ""):
+                            okr = False
+            if not okr:
+                continue
         if "[" in (x.get("t") or ""):
             continue
         if allow is not None and not allow(x, e):
@@ -857,8 +902,10 @@ def render(n, ind=0):
 
 # ---------------------------------------------------------------------- structured guards
 def nest(fn):
-    """Early returns become nested if/else: in the result, the chain of enclosing `if`s of a statement is its complete
-    guard (for code outside loops).  A loop or switch that contains a return is kept as it is."""
+    """Early exits become nested if/else: in the result, the chain of enclosing `if`s of a statement is its complete guard.
+    Function level: `return` and calls that do not return end a statement list; inside loop bodies `continue` and `break`
+    do as well.  A loop or switch containing a return is kept as an opaque statement at the level above (its exits add no
+    guard to what follows)."""
     from . import paths
     out = {k: v for k, v in fn.items() if k != "i"}
     errvars = paths.error_msg_vars(fn)
@@ -866,10 +913,128 @@ def nest(fn):
     def term(call):
         return paths.is_noreturn_call(call, errvars)
 
-    def lenient(stmts):
-        return eliminate_returns(stmts, lambda r: [r], (), term, True)
+    def is_jump(s, in_loop):
+        k = s.get("k")
+        if k == "ReturnStmt" or (in_loop and k in ("ContinueStmt", "BreakStmt")):
+            return True
+        return not k.endswith("Stmt") and cir.is_call(cir.strip(s)) and term(cir.strip(s))
 
-    out["i"] = [(_block(lenient(_stmts(c)), c) if (c is not None and c.get("k") == "CompoundStmt") else c) for c in cir.kids(fn)]
+    def has_jump(n, in_loop):
+        """n contains a jump that leaves the current statement list"""
+        stack = [(n, in_loop, in_loop)]   # node, continue counts, break counts
+        while stack:
+            x, cc, bc = stack.pop()
+            if x is None:
+                continue
+            k = x.get("k")
+            if k == "ReturnStmt" or (k == "ContinueStmt" and cc) or (k == "BreakStmt" and bc):
+                return True
+            if cir.is_call(x) and term(x):
+                return True
+            if k in _LOOPS:
+                cc = bc = False
+            elif k == "SwitchStmt":
+                bc = False
+            for c in cir.kids(x):
+                if c is not None:
+                    stack.append((c, cc, bc))
+        return False
+
+    def always(stmts, in_loop):
+        for s in stmts:
+            if is_jump(s, in_loop):
+                return True
+            k = s.get("k")
+            if k == "IfStmt":
+                _pre, _c, then, els = _if_parts(s)
+                if els is not None and always(_stmts(then), in_loop) and always(_stmts(els), in_loop):
+                    return True
+            if k == "CompoundStmt" and always(_stmts(s), in_loop):
+                return True
+        return False
+
+    def inner(s):
+        """nest inside loops / branches of a statement that itself does not jump out"""
+        k = s.get("k")
+        if k in _LOOPS:
+            n = {kk: v for kk, v in s.items() if kk != "i"}
+            kids = list(cir.kids(s))
+            bi = 0 if k == "DoStmt" else len(kids) - 1
+            body = kids[bi]
+            if body is not None:
+                kids[bi] = _block(lst(_stmts(body), (), True), body)
+            n["i"] = kids
+            return n
+        if k == "IfStmt":
+            pre, cond, then, els = _if_parts(s)
+            return _mk_if(s, pre, cond, lst(_stmts(then), (), None), lst(_stmts(els), (), None) if els is not None else [])
+        if k == "CompoundStmt":
+            b_ = dict(s)
+            b_["i"] = lst(_stmts(s), (), None)
+            return b_
+        if k == "SwitchStmt":
+            n = {kk: v for kk, v in s.items() if kk != "i"}
+            kids = list(cir.kids(s))
+            if kids and kids[-1] is not None and kids[-1].get("k") == "CompoundStmt":
+                b_ = dict(kids[-1])
+                b_["i"] = [case(c) for c in cir.kids(kids[-1])]
+                kids[-1] = b_
+            n["i"] = kids
+            return n
+        return s
+
+    def case(c):
+        if c is None:
+            return None
+        if c.get("k") in ("CaseStmt", "DefaultStmt"):
+            n = dict(c)
+            kk = list(cir.kids(c))
+            kk[-1] = case(kk[-1])
+            n["i"] = kk
+            return n
+        return inner(c)
+
+    cur_loop = [False]
+
+    def lst(stmts, cont, in_loop):
+        if in_loop is None:
+            in_loop = cur_loop[0]
+        saved = cur_loop[0]
+        cur_loop[0] = in_loop
+        try:
+            return lst2(list(stmts), cont, in_loop)
+        finally:
+            cur_loop[0] = saved
+
+    def lst2(stmts, cont, in_loop):
+        res_ = []
+        for idx, s in enumerate(stmts):
+            k = s.get("k")
+            if is_jump(s, in_loop):
+                return res_ + [s]
+            if k in _LOOPS or k == "SwitchStmt" or not has_jump(s, in_loop):
+                # loops / switches are opaque at this level even when they contain a return
+                res_.append(inner(s))
+                continue
+            if k == "IfStmt":
+                pre, cond, then, els = _if_parts(s)
+                rest = lst2(stmts[idx + 1:], cont, in_loop)
+                t_stop = always(_stmts(then), in_loop)
+                e_stop = always(_stmts(els), in_loop)
+                t2 = lst2(_stmts(then), () if t_stop else rest, in_loop)
+                e2 = lst2(_stmts(els), () if e_stop else (clone(rest) if not t_stop else rest), in_loop)
+                return res_ + [_mk_if(s, pre, cond, t2, e2)]
+            if k == "CompoundStmt" and not s.get("inl"):
+                return res_ + lst2(_stmts(s) + stmts[idx + 1:], cont, in_loop)
+            if k == "CompoundStmt":
+                rest = lst2(stmts[idx + 1:], cont, in_loop)
+                b_ = dict(s)
+                b_["i"] = lst2(_stmts(s), rest, in_loop)
+                return res_ + [b_]
+            res_.append(inner(s))
+        return res_ + list(cont)
+
+    out["i"] = [(_block(lst(_stmts(c), (), False), c) if (c is not None and c.get("k") == "CompoundStmt") else c) for c in cir.kids(fn)]
     return out
 
 
@@ -892,6 +1057,10 @@ def split_cond(cond, pol=True):
         for x, y in ((a, b), (b, a)):
             if y is not None and ((y.get("k") == "IntegerLiteral" and str(y.get("v")) == "0") or y.get("k") == "GNUNullExpr"):
                 return split_cond(x, pol if n.get("op") == "!=" else not pol)
+        if n.get("op") == "!=":
+            eq = dict(n)
+            eq["op"] = "=="
+            return [(eq, not pol)]
     return [(n, pol)]
 
 
@@ -954,6 +1123,13 @@ def _all_guards(root):
                 rec(x, acc)
             out[id(body)] = acc
             labels = []
+            every = []
+            for s in _stmts(body):
+                x = s
+                while x is not None and x.get("k") in ("CaseStmt", "DefaultStmt"):
+                    if x.get("k") == "CaseStmt":
+                        every.append(cir.kids(x)[0])
+                    x = cir.kids(x)[-1]
             for s in _stmts(body):
                 x = s
                 fresh = False
@@ -969,7 +1145,7 @@ def _all_guards(root):
                     extra = [({"k": "BinaryOperator", "op": "==", "line": s.get("line"), "i": [subj, labels[0]]}, True, n)]
                 elif labels:
                     extra = [({"k": "SwitchLabels", "line": s.get("line"), "i": [subj] + [l for l in labels if l is not None],
-                               "default": any(l is None for l in labels)}, True, n)]
+                               "default": any(l is None for l in labels), "all": [cir.text(l) for l in every]}, True, n)]
                 rec(x, acc + extra)
                 last = x
                 if last.get("k") == "CompoundStmt" and cir.kids(last):
@@ -1096,3 +1272,39 @@ def canon(unit, name_or_fn, inline_helpers=True, propagate=False, nested=True, d
     f2["inlined"] = inl
     cache[key] = f2
     return f2
+
+
+def enum_cases(gs, enumerators, subject=None):
+    """The enumerators (names) consistent with the guard atoms gs = [(cond, pol), ...]: `x == E` / `x != E` atoms and switch
+    label sets.  subject: optional predicate on the text of the compared expression.  Returns (set, constrained?)."""
+    live = set(enumerators)
+    constrained = False
+    for g in gs or ():
+        c, pol = g[0], g[1]
+        k = c.get("k")
+        if k == "BinaryOperator" and c.get("op") == "==":
+            a, b = (cir.text(x) for x in cir.kids(c))
+            for lab, other in ((a, b), (b, a)):
+                if lab in enumerators and (subject is None or subject(other)):
+                    constrained = True
+                    if pol:
+                        live &= {lab}
+                    else:
+                        live.discard(lab)
+                    break
+        elif k == "SwitchLabels":
+            kk = cir.kids(c)
+            if subject is not None and not subject(cir.text(kk[0])):
+                continue
+            labs = {cir.text(x) for x in kk[1:]}
+            if not (labs | set(c.get("all") or ())) & set(enumerators):
+                continue
+            constrained = True
+            allowed = set(labs)
+            if c.get("default"):
+                allowed |= set(enumerators) - set(c.get("all") or ())
+            if pol:
+                live &= allowed
+            else:
+                live -= allowed
+    return live, constrained
